@@ -255,7 +255,9 @@ def run(rep, tier, seed, replay, prop, names, relevant, rule, rf1=False, mc_quic
     # coverage-guided selection: simulate a large pool (cheap), replay the subset that covers the
     # most distinct (action, abstract situation) / action-pair / action-triple features
     pool = core.tlc_simulate('MC_Replication.tla', 'Sim_Replication.cfg', 1500 if tier == 'quick' else 20000, 18, seed)
-    sims, nfeat = select(pool, 110 if tier == 'quick' else 1500, rng)
+    # + the scenario family "a replica catches up across a leader change and is then restarted / elected"
+    pool += core.tlc_simulate('MC_ReplicationFam.tla', 'Sim_ReplicationFam.cfg', 700 if tier == 'quick' else 7000, 18, seed + 5)
+    sims, nfeat = select(pool, 120 if tier == 'quick' else 1500, rng)
     rep.cov['selection'] = {'pool': len(pool), 'selected': len(sims), 'features_covered': nfeat}
     behaviours += [to_stimulus(b, i + 1) for i, b in enumerate(sims) if len(b) > 1]
     with core.scratch(prop.lower()) as d:
